@@ -14,6 +14,7 @@ operations (deterministic keys 0..15) before the cases are run.
 """
 import hashlib, os, subprocess
 from .common import bump
+from . import tcp_poll
 
 ID = "C01"
 AREA = "c01"
@@ -634,6 +635,7 @@ def gen_cases(rng, tier):
         if NC_READY:
             yield from chunks(nc_ops(rng, False), 5)
             yield from chunks(tp_ops(rng, False), 6)
+            yield from tcp_poll.gen_cases(rng, tier)
     elif tier == "search":
         yield from gen_pv_cases(rng, 60, 12)
         for _ in range(150):
@@ -648,6 +650,7 @@ def gen_cases(rng, tier):
         if NC_READY:
             yield from chunks(nc_ops(rng, True), 6)
             yield from chunks(tp_ops(rng, True), 6)
+            yield from tcp_poll.gen_cases(rng, tier)
 
 
 # ------------------------------------------------------------------ checker mode: verify / point validity from the primitives
@@ -803,6 +806,7 @@ def oracle(case, out):
 
 
 def stats(case, out, acc):
+    tcp_poll.stats(case, out, acc)
     for op, o in zip(case, out):
         t = op.split("#")
         w = t[0].split()
